@@ -41,6 +41,10 @@ type PipeCase struct {
 	PerBranch bool      `json:"perbranch,omitempty"`
 	RawTree   bool      `json:"rawtree,omitempty"`
 	Cutoff    float64   `json:"cutoff,omitempty"`
+	BadCutoff bool      `json:"badcutoff,omitempty"`
+	NaNCutoff bool      `json:"nancutoff,omitempty"`
+	SwapIdx   int       `json:"swapidx,omitempty"`
+	Recs2     []Rec     `json:"recs2,omitempty"` // the same collection in another order and presentation (metamorphic second run)
 	BufSz     int       `json:"bufsz"`
 	Chunk     int       `json:"chunk"`
 	Sched     SchedCase `json:"sched"`
@@ -65,8 +69,19 @@ type PipeResult struct {
 	RawOut   string
 	LogOut   string
 	Progress int
+	TipSup   int // tip branches carrying a support after FBP / TBE
 	Err      error
 	Returned bool
+}
+
+func tipSupports(t *tree.Tree) int {
+	n := 0
+	for _, e := range t.TipEdges() {
+		if e.Support() != tree.NIL_SUPPORT {
+			n++
+		}
+	}
+	return n
 }
 
 func mustParse(s string) *tree.Tree {
@@ -175,6 +190,7 @@ func runPipe(t *testing.T, pc *PipeCase, cpus int, sc SchedCase, maxSteps int) *
 			pr.Err = support.FBP(ref, in, cpus, sup)
 			pr.Progress = sup.Progress()
 			pr.RefOut = ref.Newick()
+			pr.TipSup = tipSupports(ref)
 		case "tbe":
 			ref := mustParse(pc.Ref)
 			if err := ref.ReinitIndexes(); err != nil {
@@ -194,6 +210,7 @@ func runPipe(t *testing.T, pc *PipeCase, cpus int, sc SchedCase, maxSteps int) *
 			pr.Err = err
 			pr.Progress = sup.Progress()
 			pr.RefOut = ref.Newick()
+			pr.TipSup = tipSupports(ref)
 			if raw != nil {
 				pr.RawOut = raw.Newick()
 			}
@@ -343,6 +360,9 @@ func guard(o *Outcome, what string, f func()) (ok bool) {
 type pipeGenOpts struct {
 	algos      []string
 	faults     bool
+	faultKinds []string // default: all
+	refine     bool     // also make the reference a pure contraction of the base tree (compared trees are refinements)
+	twoBases   bool     // collections built from two base trees so that split frequencies sit on k/n exactly
 	minTax     int
 	maxTax     int
 	maxTrees   int
@@ -360,6 +380,7 @@ func genPipe(rt *rapid.T, tier string, op pipeGenOpts) *PipeCase {
 	base := RandomTree(tx, r, maxdeg, true)
 	ntrees := rapid.IntRange(1, op.maxTrees).Draw(rt, "ntrees")
 	var models []*RNode
+	var base2 *RNode
 	for i := 0; i < ntrees; i++ {
 		var m *RNode
 		switch rapid.IntRange(0, 5).Draw(rt, "rel") {
@@ -369,6 +390,15 @@ func genPipe(rt *rapid.T, tier string, op pipeGenOpts) *PipeCase {
 			m = related(base, r, 0, 2) // contraction
 		case 2:
 			m = represent(RandomTree(tx, r, maxdeg, true), r) // unrelated
+		case 3:
+			if op.twoBases {
+				if base2 == nil {
+					base2 = related(base, r, 2, 0)
+				}
+				m = represent(base2, r)
+				break
+			}
+			fallthrough
 		default:
 			m = related(base, r, 2, 1)
 		}
@@ -385,6 +415,10 @@ func genPipe(rt *rapid.T, tier string, op pipeGenOpts) *PipeCase {
 		refm = models[r.Intn(len(models))].Clone(nil)
 	case 1:
 		refm = related(base, r, 1, 1)
+	case 2:
+		if op.refine {
+			refm = related(base, r, 0, 2)
+		}
 	}
 	if op.rootedRef && rapid.IntRange(0, 2).Draw(rt, "rootref") == 0 {
 		all := refm.all()
@@ -406,6 +440,9 @@ func genPipe(rt *rapid.T, tier string, op pipeGenOpts) *PipeCase {
 		kinds := []string{"foreign", "missing", "extra", "duptip", "malformed"}
 		if pc.Feed == "chan" {
 			kinds = append(kinds, "errrec")
+		}
+		if op.faultKinds != nil {
+			kinds = op.faultKinds
 		}
 		kind := rapid.SampledFrom(kinds).Draw(rt, "faultkind")
 		pos := rapid.IntRange(0, len(pc.Recs)).Draw(rt, "faultpos")
